@@ -17,7 +17,7 @@ import (
 	"verif/harness/internal/exogen"
 )
 
-const exoticRule = " || TestExotic: case = a module of 2-3 packages drawn by internal/exogen (\"exotic but valid Go\": units of the families typedecl/typeuse [recursive, generic, parenthesised types in every position], generic [operators drawn from the operator classes of a drawn constraint, with and without core type], chain [if/else-if chains and switches comparing one complex expression or near-variants of it], stmts, callgraph [drawn call edges incl. unconditional cycles, nil comparisons of results], printf [formats drawn from the verb grammar], docs [doc comments in every position, styled names], api [~330 call shapes of SA/S/ST checks with exoticised operands], tests [_test.go declarations]; each package 8-40 units), invalid units removed by an in-process type check, module accepted by go build; oracle as above; a crash is classified by panic message and top frame into a signature, minimised by removing units, and reported once per signature and process (known signatures are counted, their input class is excluded from generation by construction and each not-excluded class is switched on per case with probability 1/2 so that frequent crashes do not mask rare ones); non-trivial = at least one diagnostic; classes fam_* / feat_* give the distribution of families and features over cases"
+const exoticRule = " || TestExotic: case = a module of 2-3 packages drawn by internal/exogen (\"exotic but valid Go\": units of the families typedecl/typeuse [recursive, self-embedding, generic, deeply nested, parenthesised types in every position; values handed to the reflection-walking APIs], generic [operators drawn from the operator classes of a drawn constraint, with and without core type], chain [if/else-if chains, switches and the prefix-trimming idiom over one complex expression or near-variants of it], stmts, callgraph [drawn call edges incl. unconditional cycles and range-over-func edges, nil comparisons of results], printf [formats drawn from the verb grammar], docs [doc comments in every position, styled names], api [about 340 call shapes of SA/S/ST/QF checks with exoticised operands and callees: parenthesised, deferred, method expressions, package-level initialisers], tests [_test.go declarations]; 40-110 family draws per package), units that do not type-check removed in-process, module accepted by go build; oracle as above plus termination within a time limit; a failure is classified by panic message and frames into a signature, minimised by removing units, and reported once per signature and process; signatures listed as known are counted, and their input class is excluded from generation by construction; the classes not excluded are switched on by a fixed rotation (the four most frequent ones never together) so that frequent crashes do not mask rare ones; non-trivial = at least one diagnostic; classes fam_* / feat_* give the distribution of families and features over cases"
 
 // procStart approximates the start of the shard's budget.
 var procStart = time.Now()
@@ -85,7 +85,8 @@ const frequentSigs = 4
 // focusSlots is the rotation of the frequent classes: the rarer of them get more turns.
 // In the turns of slot frequentSigs none of them is on, and each of the other classes is on
 // with probability 1/2; in the other turns the other classes are off.
-var focusSlots = []int{0, 1, 3, 2, 4, 3, 1, 4, 3, 2, 4}
+// (16 entries: with 16 shards every class has its turns already among the first cases of the shards)
+var focusSlots = []int{0, 1, 2, 3, 4, 1, 2, 3, 0, 4, 3, 1, 2, 4, 3, 4}
 
 var exoticCaseNo int
 
@@ -408,7 +409,7 @@ func TestExotic(t *testing.T) {
 		}
 		seenMu.Lock()
 		exoticCaseNo++
-		focus := focusSlots[(ev.Shard()+exoticCaseNo)%len(focusSlots)] // frequentSigs: none of them
+		focus := focusSlots[(ev.Shard()+exoticCaseNo-1)%len(focusSlots)] // frequentSigs: none of them
 		seenMu.Unlock()
 		maskBits := rapid.Uint64().Draw(rt, "class_bits")
 		maskBits = (maskBits ^ maskBits>>17) * 0x9E3779B97F4A7C15
